@@ -12,8 +12,9 @@ pub type NomResult<'a, T> = std::result::Result<(&'a [u8], T), nom::Err<NomError
 
 pub mod sfx {
 use vstd::prelude::*;
-// "rest is a suffix of input", written without an existential
-pub open spec fn is_suffix(rest: Seq<u8>, input: Seq<u8>) -> bool {
+// "rest is a suffix of input", written without an existential.  CLOSED: callers use the lemmas below; leaving the
+// definition open makes every suffix fact an equation between skip() terms, which multiplies index instantiations.
+pub closed spec fn is_suffix(rest: Seq<u8>, input: Seq<u8>) -> bool {
     rest.len() <= input.len() && rest == input.skip(input.len() - rest.len())
 }
 pub broadcast proof fn lemma_suffix_trans(a: Seq<u8>, b: Seq<u8>, c: Seq<u8>)
@@ -28,7 +29,13 @@ pub broadcast proof fn lemma_suffix_skip(s: Seq<u8>, n: int)
 {
     assert(s.skip(s.len() - (s.len() - n)) =~= s.skip(n));
 }
+pub broadcast proof fn lemma_suffix_len(a: Seq<u8>, b: Seq<u8>)
+    requires #[trigger] is_suffix(a, b),
+    ensures a.len() <= b.len(),
+{}
 pub proof fn lemma_suffix_refl(s: Seq<u8>) ensures is_suffix(s, s) { assert(s.skip(0) =~= s); }
+pub proof fn lemma_suffix_eq(a: Seq<u8>, b: Seq<u8>) requires is_suffix(a, b) ensures a.len() <= b.len(), a == b.skip(b.len() - a.len()) {}
+pub proof fn lemma_suffix_intro(a: Seq<u8>, b: Seq<u8>, n: int) requires 0 <= n <= b.len(), a == b.skip(n) ensures is_suffix(a, b) { lemma_suffix_skip(b, n); }
 
 }
 pub use sfx::*;
